@@ -159,6 +159,11 @@ func (v V) Go() any {
 		}
 		return out
 	case "o":
+		if v.Typed && len(v.O) > 0 {
+			if tm := typedMap(v.O); tm != nil {
+				return tm
+			}
+		}
 		out := make(map[string]any, len(v.O))
 		for _, kv := range v.O {
 			out[kv.K] = kv.V.Go()
@@ -183,6 +188,41 @@ func (v V) Go() any {
 		return unsupported{X: 3}
 	}
 	panic("bad V kind " + v.K)
+}
+
+// typedMap: map[string]string / int / bool / float64 when every value has that Go type, else nil
+func typedMap(kvs []KV) any {
+	vals := make([]V, len(kvs))
+	for i, kv := range kvs {
+		vals[i] = kv.V
+	}
+	switch ts := typedSlice(vals).(type) {
+	case []string:
+		out := map[string]string{}
+		for i, kv := range kvs {
+			out[kv.K] = ts[i]
+		}
+		return out
+	case []int:
+		out := map[string]int{}
+		for i, kv := range kvs {
+			out[kv.K] = ts[i]
+		}
+		return out
+	case []bool:
+		out := map[string]bool{}
+		for i, kv := range kvs {
+			out[kv.K] = ts[i]
+		}
+		return out
+	case []float64:
+		out := map[string]float64{}
+		for i, kv := range kvs {
+			out[kv.K] = ts[i]
+		}
+		return out
+	}
+	return nil
 }
 
 type namedStr string
@@ -293,6 +333,23 @@ func VOfGo(x any) V {
 		return out
 	}
 	return V{K: "x", Desc: "unknown"}
+}
+
+// AsString: the string rendering a flat source would carry for this leaf
+func (d D) AsString() string {
+	switch d.K {
+	case "s":
+		return d.S
+	case "i":
+		return strconv.FormatInt(d.I, 10)
+	case "f":
+		return strconv.FormatFloat(d.F, 'g', -1, 64)
+	case "b":
+		return strconv.FormatBool(d.B)
+	case "t":
+		return d.T.Format(time.RFC3339)
+	}
+	return ""
 }
 
 // ---------- destination values ----------
